@@ -82,7 +82,7 @@ def hasharr_jobs(prop):
         js = [Job('h_hasharr', 'plain', extra_srcs=REFS_HASH, args=a)]
         if prop == 'C07':
             qa = ['--maxcap', '5', '--cases', '140', '--statecap', '100000']
-            ta = ['--maxcap', '9', '--cases', '1500', '--statecap', '1000000']
+            ta = ['--maxcap', '8', '--cases', '1500', '--statecap', '600000']     # capacity 9 under ASan took ~1 h on two shards (the BFS of one capacity is one case)
             js.append(Job('h_hasharr', 'asan', extra_srcs=REFS_HASH, args=(ta if tier == 'thorough' else qa)))
         return js
     return jobs
@@ -155,7 +155,7 @@ def c11_jobs(tier, seed):
     return [
         Job('h_tree', 'asan', args=['--universe', '11' if t else '8', '--cases', '2000' if t else '160']),
         Job('h_hashtbl', 'asan', extra_srcs=REFS_HASH, args=['--cases', '2500' if t else '192']),
-        Job('h_hasharr', 'asan', extra_srcs=REFS_HASH, args=['--maxcap', '9' if t else '5', '--cases', '1750' if t else '112', '--statecap', '1000000' if t else '100000']),
+        Job('h_hasharr', 'asan', extra_srcs=REFS_HASH, args=['--maxcap', '8' if t else '5', '--cases', '1750' if t else '112', '--statecap', '600000' if t else '100000']),
         Job('h_listtbl', 'asan', extra_srcs=REFS_HASH, args=['--cases', '6400' if t else '320']),
         Job('h_list', 'asan', args=['--cases', '2500' if t else '192']),
         Job('h_vector', 'asan', args=['--cases', '2000' if t else '128']),
